@@ -24,8 +24,9 @@ def decorate_bytes(rng, d):
 
 class C02(PropBase):
     id = "C02"
-    lean_modules = ["SqModel.Props.C02"]
-    extractors = ["crc"]
+    corr_fields = ['df']
+    lean_modules = ["SqModel.Props.C02", "SqModel.Proofs.BridgeBits"]
+    extractors = ["trans_bits", "crc"]
     rule = ("q msg on lines of every digit count 0..64, random and valid frames of every DF 0..31 at both lengths, with and "
             "without 12-digit timestamp, under 9 decoration schemes (case, separators, Unicode digits, non-UTF-8 bytes); "
             "one-line segments for table equality of decorated vs plain lines. Non-trivial = accepted, or rejected for a "
